@@ -1016,6 +1016,9 @@ fn judge(base: usize, edits: &[&Edit], report: &mut Report) {
             };
             report.add_count(if outcome.is_ok() { "outcome_accepted" } else { "outcome_rejected" }, 1);
             for c in &got {
+                report.add_count(&format!("code_reported_{c}"), 1);
+            }
+            for c in &got {
                 if !DOCUMENTED.contains(&c.as_str()) {
                     report.violation(Violation::new(format!("undocumented-code:{c}"), format!("edits {names:?}"), scen.clone()));
                 }
@@ -1032,6 +1035,9 @@ fn judge(base: usize, edits: &[&Edit], report: &mut Report) {
                 return;
             };
             report.add_count("documents_judged_exactly", 1);
+            for c in &want {
+                report.add_count(&format!("code_expected_{c}"), 1);
+            }
             for c in got.difference(&want) {
                 // E0002 (matrices cannot be matched with the profiles) is a generic error outside of the validation rules
                 if c == "E0002" && !matrices.is_empty() {
@@ -1106,6 +1112,11 @@ pub fn run(ctx: &RunCtx) -> Report {
     report.set("edit_catalogue_sizes", json!(sizes));
     report.set("distinct_nontrivial", report.get_count("documents"));
     report.set("exhaustive", true);
+    // every documented code has to be reached: reported by the reader at least once
+    let never: Vec<&str> = DOCUMENTED.iter().copied().filter(|c| c.starts_with("E1") && report.get_count(&format!("code_reported_{c}")) == 0).collect();
+    report.set("documented_codes_never_reported", json!(never));
+    let never_expected: Vec<&str> = DOCUMENTED.iter().copied().filter(|c| c.starts_with("E1") && report.get_count(&format!("code_expected_{c}")) == 0).collect();
+    report.set("documented_codes_never_expected_by_the_model", json!(never_expected));
     if report.get_count("documents_judged_exactly") == 0 || report.get_count("outcome_rejected") == 0 || report.get_count("outcome_accepted") == 0 {
         report.error("vacuous: no document judged exactly / nothing accepted / nothing rejected");
     }
